@@ -4,6 +4,9 @@ import (
 	"errors"
 	"io"
 
+	"github.com/go-json-experiment/json/internal/jsonflags"
+	"github.com/go-json-experiment/json/jsontext"
+
 	"github.com/go-json-experiment/json/internal/zzverif/vrt"
 )
 
@@ -97,4 +100,48 @@ func VerifC05UnmarshalRead(kind, n int, tail string, chunk int, eofWith bool) {
 	} else {
 		vrt.Cover("refused")
 	}
+}
+
+// VerifC05DecodeStream: UnmarshalDecode over a stream equals Unmarshal of each value in turn:
+// a short first value, then a second value (a string literal of n bytes) that extends past
+// what the decoder has buffered, then a symbolic tail byte; with and without the v1 option
+// ReportErrorsWithLegacySemantics (which pre-validates the next value before unmarshaling it).
+func VerifC05DecodeStream(n, chunk int, legacy bool) {
+	doc := []byte(`[1,2] `)
+	second := make([]byte, 0, n)
+	second = append(second, '"')
+	for len(second) < n-1 {
+		second = append(second, 'y')
+	}
+	second = append(second, '"')
+	// two solver-chosen letters around the point where the first 64-byte fill ends
+	c0, c1 := vrt.Byte("c0"), vrt.Byte("c1")
+	vrt.Assume(c0 >= 'a' && c0 <= 'z' && c1 >= 'a' && c1 <= 'z')
+	if n > 60 {
+		second[57], second[58] = c0, c1
+	} else {
+		second[1], second[n-2] = c0, c1
+	}
+	doc = append(doc, second...)
+	doc = append(doc, vrt.Template("tail", "?")...)
+	var opts []Options
+	if legacy {
+		opts = append(opts, jsonflags.ReportErrorsWithLegacySemantics|1)
+	}
+	r := &zz05Reader{data: append([]byte(nil), doc...), chunk: chunk}
+	dec := jsontext.NewDecoder(r)
+	var v1, v2 any
+	err1 := UnmarshalDecode(dec, &v1, opts...)
+	vrt.Assert("C05/stream/first-value", err1 == nil)
+	if a, ok := v1.([]any); !ok || len(a) != 2 {
+		vrt.Fail("C05/stream/first-value")
+	}
+	err2 := UnmarshalDecode(dec, &v2, opts...)
+	// the second value is complete and valid unless the tail byte glues onto it; a string
+	// literal is self-delimiting, so it is always readable
+	vrt.Assert("C05/stream/second-value-accepted", err2 == nil)
+	s, ok := v2.(string)
+	vrt.Assert("C05/stream/second-value-same", err2 != nil || (ok && s == string(second[1:n-1])))
+	vrt.Assert("C20/reader/not-polled-with-empty-buffer", r.zeroReads <= 8)
+	vrt.Cover("checked")
 }
